@@ -116,14 +116,16 @@ class AppEnv:
         for s in streams:
             self.add_fixture_stream(s, copy_media=copy_media, with_text=with_text)
 
-    def add_fixture_stream(self, name, copy_media=False, with_text=True, title=None):
+    def add_fixture_stream(self, name, copy_media=False, with_text=True, title=None, only=None, directory=None, timing=True):
+        """only: restrict to these file stems; directory: name of the stream (default: the fixture name); timing=False: no timing reference"""
         from dashlive.drm.playready import PlayReady
         from dashlive.mpeg import mp4
         from dashlive.mpeg.dash.representation import Representation
         from dashlive.utils.date_time import from_isodatetime
         models = self.models
         src_dir = os.path.join(FIXTURES, name)
-        dst_dir = os.path.join(self.blob_folder, name)
+        directory = directory or name
+        dst_dir = os.path.join(self.blob_folder, directory)
         if not os.path.exists(dst_dir):
             if copy_media:
                 os.makedirs(dst_dir)
@@ -135,12 +137,12 @@ class AppEnv:
         titles = {'bbb': 'Big Buck Bunny', 'tears': 'Tears of Steel'}
         with self.app.app_context():
             stream = models.Stream(
-                title=title or titles.get(name, name), directory=name,
+                title=title or titles.get(name, name), directory=directory,
                 marlin_la_url='ms3://localhost/marlin/%s' % name,
                 playready_la_url=PlayReady.TEST_LA_URL)
             files = sorted(f[:-4] for f in os.listdir(src_dir)
                            if f.endswith('.mp4') and f.startswith(name + '_')
-                           and (with_text or '_t' not in f))
+                           and (with_text or '_t' not in f) and (only is None or f[:-4] in only))
             mfs = []
             for stem in files:
                 path = os.path.join(src_dir, stem + '.mp4')
@@ -158,7 +160,7 @@ class AppEnv:
                                       track_id=rep.track_id, encrypted=rep.encrypted, blob=blob)
                 mf.set_representation(rep)
                 mfs.append(mf)
-                if stream.timing_reference is None and '_v' in stem:
+                if timing and stream.timing_reference is None and '_v' in stem:
                     stream.timing_reference = mf.as_stream_timing_reference()
             models.db.session.add(stream)
             for mf in mfs:
@@ -177,6 +179,34 @@ class AppEnv:
                         key = binascii.b2a_hex(PlayReady.generate_content_key(kid.raw))
                         models.db.session.add(models.Key(hkid=kid.hex, hkey=key, computed=True))
                     kids.add(kid.raw)
+            models.db.session.commit()
+
+    def add_custom_stream(self, directory, files, title=None, timing=True):
+        """a stream built from copies of fixture files under new names.  files: {stem: source path}"""
+        from dashlive.mpeg import mp4
+        from dashlive.mpeg.dash.representation import Representation
+        from dashlive.utils.date_time import from_isodatetime
+        models = self.models
+        dst_dir = os.path.join(self.blob_folder, directory)
+        os.makedirs(dst_dir, exist_ok=True)
+        with self.app.app_context():
+            stream = models.Stream(title=title or directory, directory=directory)
+            models.db.session.add(stream)
+            for stem, src_path in sorted(files.items()):
+                path = os.path.join(dst_dir, stem + '.mp4')
+                shutil.copy(src_path, path)
+                with open(path, 'rb', buffering=16384) as src:
+                    atoms = mp4.Mp4Atom.load(src)
+                rep = Representation.load(stem + '.mp4', atoms)
+                blob = models.Blob(filename=stem + '.mp4', created=from_isodatetime('2022-09-01T12:23:00Z'),
+                                   size=os.path.getsize(path), sha1_hash=path, content_type=rep.content_type, auto_delete=False)
+                mf = models.MediaFile(name=stem, stream=stream, bitrate=rep.bitrate, content_type=rep.content_type,
+                                      codec_fourcc=rep.codecs.split('.')[0], track_id=rep.track_id, encrypted=rep.encrypted, blob=blob)
+                mf.set_representation(rep)
+                if timing and stream.timing_reference is None and rep.content_type == 'video':
+                    stream.timing_reference = mf.as_stream_timing_reference()
+                models.db.session.add(blob)
+                models.db.session.add(mf)
             models.db.session.commit()
 
     def add_raw_stream(self, directory, files):
